@@ -34,7 +34,11 @@ def install():
             if ctx is None:
                 return orig(self, task, finish_time)
             pre = monitor._safe(ctx, pre_completion, self, task)
-            r = orig(self, task, finish_time)
+            try:
+                r = orig(self, task, finish_time)
+            except Exception as e:  # noqa
+                monitor._safe(ctx, completion_raised, self, task, pre, e)
+                raise
             monitor._safe(ctx, post_completion, self, task, pre, r)
             return r
         return notify_task_completion
@@ -240,6 +244,25 @@ def pre_completion(ctx, tg, task):
     return {"cond": False, "expect": expect, "s": s}
 
 
+def completion_raised(ctx, tg, task, pre, exc):
+    """the completion of a conditional raised instead of choosing a branch: no child is released.  Not C07's
+    business when a child had been cancelled earlier (by a policy, or by drop_skipped_tasks): the weights can
+    then no longer sum to one, which is a consequence of that cancellation (KF-C05-cancelled-conditional-child)"""
+    if pre is None or not pre.get("cond"):
+        return
+    s = pre["s"]
+    live = [k for k in pre["kids"] if ctx.by_key.get((s.graph, k)) is not None]
+    if any(tg_task.state.name == "CANCELLED" for tg_task in tg.get_children(task)) or \
+            any(ctx.by_key[(s.graph, k)].state == "CANCELLED" for k in live):
+        ctx.probe("conditional_completion_raised_after_cancel")
+        return
+    ctx.violate("C07", "conditional_completion_raised",
+                f"completion of conditional {s.uname} raised {type(exc).__name__}: {str(exc)[:160]}; no branch "
+                f"was released", {"exc": type(exc).__name__,
+                                  "resolve_at_submission": bool(ctx.world["flags"].get(
+                                      "resolve_conditionals_at_submission"))})
+
+
 def post_completion(ctx, tg, task, pre, result):
     if pre is None:
         return
@@ -345,6 +368,24 @@ def closed_loop_boundary(ctx):
             ctx.probe("closed_loop_rerelease")
 
 
+def post_c19_closed_loop(ctx):
+    """a run that reached its natural end (before the loop timeout) has released all N invocations of every
+    closed-loop job graph: each invocation that finishes *or is cancelled* hands its slot to the next one"""
+    end_t = ctx.end_time
+    if end_t is None or end_t >= ctx.world["sim"]["loop_timeout"]:
+        return
+    for g in ctx.world["graphs"]:
+        rel = g["release"]
+        if rel["type"] != "closed_loop":
+            continue
+        total = sum(1 for name in ctx.built.workload.task_graphs if name.split("@")[0] == g["name"])
+        ctx.probe("c19_closed_loop_total_checked")
+        if total < rel["invocations"]:
+            ctx.violate("C19", "closed_loop_too_few_invocations",
+                        f"{g['name']}: the run ended at {end_t} before the timeout with {total} task graphs "
+                        f"released, declared {rel['invocations']} (concurrency {rel['concurrency']})", {})
+
+
 def _world_graph(self, base):
     m = getattr(self, "_wg", None)
     if m is None:
@@ -378,6 +419,7 @@ def post_run(ctx, rows, res):
         post_c02_trace(ctx, parsed)
         post_c18(ctx, parsed)
         post_c12(ctx)
+        post_c19_closed_loop(ctx)
     elif res["outcome"] == "crash":
         post_c07(ctx, parsed, res, safety_only=True)
 
